@@ -243,7 +243,11 @@ scpi_bool_t SCPI_Parse(scpi_t * context, char * data, int len) {
 
             composeCompoundCommand(&cmd_prev, &state->programHeader);
 
-            if (findCommandHeader(context, state->programHeader.ptr, state->programHeader.len)) {
+            if (state->numberOfParameters < 0) {
+                /* program data can not be parsed (e.g. empty or incomplete last parameter) */
+                SCPI_ErrorPush(context, SCPI_ERROR_INVALID_STRING_DATA);
+                result = FALSE;
+            } else if (findCommandHeader(context, state->programHeader.ptr, state->programHeader.len)) {
 
                 context->param_list.lex_state.buffer = state->programData.ptr;
                 context->param_list.lex_state.pos = context->param_list.lex_state.buffer;
